@@ -107,4 +107,17 @@ EmitSpecNext ==
           PrintT(ToJson([files |-> [f \in 1..N |-> [content |-> content[f], kind |-> kind[f], target |-> target[f]]],
                          groups |-> SetToSeq({SetToSeq(g) : g \in Reference})]))
 GenSpec == Init /\ [][EmitSpecNext]_vars
+
+\* one large code base: BigK distinct contents, each present twice - so that ANY weakening of the
+\* pre-filter (a truncated or size-based digest) puts several classes into one bucket
+BigK == 24
+BigN == 2 * BigK
+BigInit == /\ stage = "build" /\ content = [i \in 1..BigN |-> "k" \o ToString((i - 1) % BigK)]
+           /\ kind = [i \in 1..BigN |-> "reg"] /\ target = [i \in 1..BigN |-> 0]
+           /\ digest = [c \in Pool |-> CHOOSE h \in Hashes : TRUE] /\ todo = {} /\ remaining = {} /\ confirmed = {}
+BigNext == /\ stage = "build" /\ stage' = "done"
+           /\ UNCHANGED <<content, kind, target, digest, todo, remaining, confirmed>>
+           /\ PrintT(ToJson([files |-> [f \in 1..BigN |-> [content |-> content[f], kind |-> kind[f], target |-> target[f]]],
+                             groups |-> SetToSeq({SetToSeq(g) : g \in Reference})]))
+BigSpec == BigInit /\ [][BigNext]_vars
 ==============================================================================
